@@ -56,6 +56,7 @@ type hdef struct {
 	Multi bool // the handler returns two outputs (path segments name#a and name#b)
 	Bare  bool // outputs are built as struct literals (no constructor, nil metadata): lineage travels in UUID and payload only
 	Ctx   bool // the handler honours its message context (fails when it is already done)
+	Pass  bool // the handler forwards the consumed message OBJECT itself (PassthroughHandler, FanIn/FanOut do): its context is the delivery's, which ends with the Ack
 }
 
 type pipeline struct {
@@ -75,7 +76,7 @@ func (p pipeline) canon() string {
 	for _, st := range p.Stages {
 		b.WriteString("[")
 		for _, h := range st {
-			fmt.Fprintf(&b, "%s:%s>%s%s%s%s ", h.Name, h.In, h.Out, map[bool]string{true: "x2", false: ""}[h.Multi], map[bool]string{true: "bare", false: ""}[h.Bare], map[bool]string{true: "ctx", false: ""}[h.Ctx])
+			fmt.Fprintf(&b, "%s:%s>%s%s%s%s ", h.Name, h.In, h.Out, map[bool]string{true: "x2", false: ""}[h.Multi], map[bool]string{true: "bare", false: ""}[h.Bare], map[bool]string{true: "ctx", false: ""}[h.Ctx]+map[bool]string{true: "pass", false: ""}[h.Pass])
 		}
 		b.WriteString("]")
 	}
@@ -118,6 +119,9 @@ func genPipeline(t *rapid.T) pipeline {
 		for hi := range p.Stages[si] {
 			p.Stages[si][hi].Bare = rapid.IntRange(0, 3).Draw(t, "structLiteralOutputs") == 0
 			p.Stages[si][hi].Ctx = rapid.IntRange(0, 2).Draw(t, "contextAwareHandler") == 0
+			if !p.Stages[si][hi].Multi && !p.Stages[si][hi].Bare {
+				p.Stages[si][hi].Pass = rapid.IntRange(0, 3).Draw(t, "forwardsTheConsumedObject") == 0
+			}
 		}
 	}
 	p.Buffer = rapid.IntRange(0, 3).Draw(t, "buffer")
@@ -294,6 +298,10 @@ func run(p pipeline) (viol []string, nontrivial bool) {
 					segs = []string{h.Name + "#a", h.Name + "#b"}
 				}
 				var outs []*message.Message
+				if h.Pass {
+					m.Payload = append(append([]byte(nil), m.Payload...), []byte("/"+h.Name)...)
+					outs, segs = []*message.Message{m}, nil
+				}
 				for _, seg := range segs {
 					payload := append(append([]byte(nil), m.Payload...), []byte("/"+seg)...)
 					var out *message.Message
